@@ -145,9 +145,14 @@ class Case:
             w, P = gen_data(rng, order, rank)
         self.w, self.P = w, P
         self.inputs = inputs_of(order)
+        self.share = False      # True: build() wraps the very same array objects (shared-array histories)
 
     def build(self):
         # keep the representation exactly as generated (no QR at construction): rank <= 2*dim by construction
+        if self.share:
+            g = Gaussian(white_vec=self.w, prec_sqrt=self.P, inputs=self.inputs)
+            assert g.prec_sqrt is self.P and g.white_vec is self.w, "constructor copied the arrays"
+            return g
         return Gaussian(self.w.copy(), self.P.copy(), self.inputs)
 
     def at(self, p):
@@ -797,6 +802,84 @@ def stream_moment(env, rng, counts):
     return ("moment", str(order), str(sequence), c.rank)
 
 
+def stream_shared(env, rng, counts):
+    """Shared-array histories: several Gaussians constructed around the SAME prec_sqrt array object (square and wide,
+    rank in [dim, 2 dim]) with different white_vec, and around the same white_vec with different prec_sqrt; on each in
+    turn (random order, with repeats) log-normaliser (attribute and reduce over all reals), a partial marginal and
+    Integrate, each against the dense closed form of ITS OWN parameters."""
+    c0 = gen_full_case(rng, want_rank=lambda dim, r: r.choice([dim, dim + 1, dim + 1, 2 * dim]), max_dim=4,
+                       nb_choices=(0, 0, 1, 1, 2))
+    names = [k for k, _ in c0.layout]
+    for _ in range(30):
+        if c0.block_ok(names) and all(c0.block_ok([k]) for k in names):
+            break
+        c0 = Case(rng, c0.order, c0.rank)
+    else:
+        return None
+    mode = rng.choice(["share-prec_sqrt", "share-prec_sqrt", "share-white_vec"])
+    cases = [c0]
+    for _ in range(rng.choice([2, 3])):
+        w2, P2 = gen_data(rng, c0.order, c0.rank)
+        if mode == "share-prec_sqrt":
+            c = Case(rng, c0.order, c0.rank, w=w2, P=c0.P)
+        else:
+            c = Case(rng, c0.order, c0.rank, w=c0.w, P=P2)
+            if not (c.block_ok(names) and all(c.block_ok([k]) for k in names)):
+                continue
+        cases.append(c)
+    if len(cases) < 2:
+        return None
+    for c in cases:
+        c.share = True
+    sequence = list(range(len(cases))) + [0] + [rng.randrange(len(cases)) for _ in range(2)]
+    if rng.random() < 0.5:
+        rng.shuffle(sequence)
+    base = [dict(op="shared-arrays", mode=mode, sequence=sequence)] + [dict(op="gaussian", **c.describe()) for c in cases]
+    for idx in sequence:
+        c = cases[idx]
+        hist = base + [dict(op="log_normalizer+marginals", gaussian_index=idx)]
+        try:
+            g = c.build()
+            ln = c12.table_of(g.log_normalizer, list(c.batch), c.batch)
+            for p in c.points():
+                w, P = c.at(p)
+                lam, eta, cc = dense_layout(c.layout, w, P)
+                _, _, _, c2, nb, det = schur(c.layout, lam, eta, cc, names)
+                want = float(c2) + logconst(nb, det)
+                got = float(ln[tuple(p[k] for k in c.batch)])
+                if not fclose(got, want, 1.0, 1e-8):
+                    raise CaseFail("C13.log-normalizer-ne-formula", point=p, expected=str(want), got=str(got))
+            _marginal_checks(env, rng, counts, c, list(names), c.dim, hist)
+            if len(names) > 1:
+                bn = [rng.choice(names)]
+                _marginal_checks(env, rng, counts, c, bn, sum(n for k, n in c.layout if k in bn), hist)
+            if len(names) == 1:
+                x = Variable(names[0], dom(c.shapes[names[0]]))
+                res = Integrate(c.build(), x, frozenset([x]))
+                if isinstance(res, (Tensor, Number)):
+                    tab = c12.table_of(res, list(c.batch), c.batch)
+                    for p in c.points():
+                        w, P = c.at(p)
+                        lam, eta, cc = dense_layout(c.layout, w, P)
+                        inv = mat_inv(lam)
+                        mean = [sum((inv[i][j] * eta[j] for j in range(c.dim)), F(0)) for i in range(c.dim)]
+                        c2 = cc + sum((eta[i] * inv[i][j] * eta[j] for i in range(c.dim) for j in range(c.dim)), F(0)) / 2
+                        norm = math.exp(float(c2) + logconst(c.dim, mat_det(lam)))
+                        got = np.asarray(tab[tuple(p[k] for k in c.batch)]).reshape(-1)
+                        wantv = [float(m) * norm for m in mean]
+                        sc = max([1.0] + [abs(v) for v in wantv])
+                        if not all(fclose(float(a), b, sc, 1e-8) for a, b in zip(got, wantv)):
+                            raise CaseFail("C13.integrate-variable-ne-mean-times-mass", point=p, expected=str(wantv),
+                                           got=str(got.tolist()))
+        except CaseFail as cf:
+            cf.kw.setdefault("witness_history", hist)
+            raise
+        counts("shared:step")
+    counts("shared:" + mode)
+    counts("shared:rank-" + ("square" if c0.rank == c0.dim else "wide"))
+    return ("shared", mode, str(c0.order), c0.rank, str(sequence))
+
+
 def _snapshot(f):
     """bitwise image of a result (for the history-independence gate)"""
     obs = Obs(f)
@@ -912,7 +995,8 @@ def stream_history(env, rng, counts):
 
 
 STREAMS = [("marginal", stream_marginal, 8), ("too-little", stream_too_little, 1), ("integrate", stream_integrate, 3),
-           ("mixture", stream_mixture, 2), ("plate", stream_plate, 2), ("moment", stream_moment, 2)]
+           ("mixture", stream_mixture, 2), ("plate", stream_plate, 2), ("moment", stream_moment, 2),
+           ("shared", stream_shared, 2)]
 
 
 def run_case(env, case_seed, counts, stream=None):
@@ -1023,7 +1107,8 @@ def correspond(ctx, use_driver=True, volume=None):
                 "all reals = log-normaliser) incl. sequential-vs-joint and evaluate-vs-integrate commutation; "
                 "too-little-information (rank < dim_b) must raise; Integrate against a Variable / another Gaussian; "
                 "mixture reduce over reals + integer inputs; plate sums of Gaussians / mixtures (completion gate); "
-                "moment matching (mass, mean, covariance); history stream: sequences A, B, C, A of Gaussians over the same "
+                "moment matching (mass, mean, covariance); shared-array histories (several Gaussians around the same "
+                "prec_sqrt / white_vec array object); history stream: sequences A, B, C, A of Gaussians over the same "
                 "ordered input names with permuted block sizes (and one different total size), marginalised over the "
                 "same interleaved subsets, each step checked, and A's answers must be bitwise reproduced after B, C.  Non-trivial = the implementation returned a value that "
                 "was compared; distinct by stream, signature, reduced set and rank.")
@@ -1031,7 +1116,7 @@ def correspond(ctx, use_driver=True, volume=None):
     if env.use_driver:
         inverse_stream(ctx, 80 if ctx.tier == "quick" else 800)
     plate_exhaustive(ctx, env)
-    n = volume or (1500 if ctx.tier == "quick" else 20000)
+    n = volume or (1000 if ctx.tier == "quick" else 16000)
     for _ in range(n):
         seed = ctx.rng.getrandbits(48)
         try:
@@ -1042,7 +1127,7 @@ def correspond(ctx, use_driver=True, volume=None):
         ctx.count("stream:" + name)
         if key is not None:
             ctx.case(sample=dict(case_seed=seed, stream=name, key=str(key)[:200]), nontrivial_key=key)
-    for _ in range(40 if ctx.tier == "quick" else 600):
+    for _ in range(30 if ctx.tier == "quick" else 500):
         seed = ctx.rng.getrandbits(48)
         try:
             key, name = run_case(env, seed, ctx.count, stream="history")
